@@ -34,7 +34,7 @@ value = st.one_of(
     st.builds(lambda v: {"t": "int", "v": v}, st.integers(-1000, 1000)),
     st.builds(lambda v: {"t": "float", "v": v}, st.sampled_from([0.0, -0.0, 1.5, 1e308, 5e-324, 0.1])),
     st.builds(lambda v: {"t": "str", "v": v}, st.sampled_from(["", "x", "hello", "äöü€", "a\tb", "𝔘"])),
-    st.builds(lambda v: {"t": "bytes", "v": v}, st.sampled_from(["", "00", "61", "6100", "ff00fe", "7f00", "007f", "7f7f"])),
+    st.builds(lambda v: {"t": "bytes", "v": v}, st.sampled_from(["", "00", "61", "6100", "ff00fe", "7f00", "007f", "7f7f", "ff", "4dfc6c6c6572", "c328"])),
     st.builds(lambda v: {"t": "void", "v": v}, st.sampled_from(["00", "61", "6100", "0000", "ff00fe00", "7f00", "007f", "7f7f", "7e"])),
     st.builds(lambda v: {"t": "void", "v": v}, _hex.filter(lambda h: h not in ("", "7f"))),
     # opaque scalars as 0-d arrays, including the deletion marker's own byte (refused loudly or stored visibly)
